@@ -5,7 +5,8 @@ VM/compiler formulas.
 * `Sub`      : the subclass relation = reflexive-transitive closure of "is the base of"
 * `execS`    : control-flow semantics of the statement fragment, outcome
                `normal | brk | cont | ret v | exc class line`; every `finally` body and every
-               `__exit__` runs exactly once on every way out; handler = first clause that catches
+               `__exit__` runs exactly once on every way out; handler = first clause that catches;
+               `Handled` = the exception being handled (what a bare `raise` re-raises), a stack discipline
 * `wf`       : the two SyntaxError rules (`break`/`continue` outside a loop, `continue` in `finally`)
 * `Selects`  : which block kind handles which unwinding reason (Python's block-stack rule)
 * `lineAtByte` : the line of the instruction whose bytes contain an address
@@ -37,6 +38,8 @@ def ancestors : Cls → List Cls
   | .IndexError => [.IndexError, .LookupError, .Exception, .BaseException]
   | .ZeroDivisionError => [.ZeroDivisionError, .ArithmeticError, .Exception, .BaseException]
   | .OverflowError => [.OverflowError, .ArithmeticError, .Exception, .BaseException]
+  | .RuntimeError => [.RuntimeError, .Exception, .BaseException]
+  | .TypeError => [.TypeError, .Exception, .BaseException]
 
 /-- executable form of `Catches` for the builtin classes -/
 def catches (cs : List Cls) (err : Cls) : Bool := cs.any fun c => (ancestors err).contains c
@@ -63,19 +66,39 @@ inductive Task
   | run (s : Stmt)
   | forLoop (h : Nat) (body orelse : Stmt)   -- the iteration of `for x in <iterator h>: body else: orelse`
 
+/-- The exception being handled (`sys.exc_info()`, what a bare `raise` re-raises): class and
+raising line, `none` outside every handler.  Python keeps it as a *stack discipline*: entering an
+`except` clause body (or a `finally` body on the exception path) makes the caught exception the
+handled one, and leaving that body by ANY route - falling off its end, `break`, `continue`,
+`return`, or another exception - makes the previously handled exception current again.  In the
+big-step semantics this is lexical scoping: `hd` is handed down, never returned. -/
+abbrev Handled := Option (Cls × Nat)
+
+/-- the class a `raise <form>` statement raises -/
+def RaiseForm.cls : RaiseForm → Cls
+  | .inst c _ => c
+  | .from c _ => c
+  | .nonExc _ => .TypeError      -- "exceptions must derive from BaseException"
+
+/-- the handled exception inside a `finally` body: the exception the body is entered with on the
+exception path, otherwise the one of the surrounding code -/
+def finHd (hd : Handled) : Outcome → Handled
+  | .exc c l => some (c, l)
+  | _ => hd
+
 /-- Big-step semantics with fuel (`none` = fuel exhausted; loops may run forever). -/
-def execT {W} (P : Prims W) : Nat → Task → W → Option (W × Outcome)
-  | 0, _, _ => none
-  | f+1, .forLoop h b o, w =>
+def execT {W} (P : Prims W) : Nat → Task → W → Handled → Option (W × Outcome)
+  | 0, _, _, _ => none
+  | f+1, .forLoop h b o, w, hd =>
     match P.itNext w h with
-    | (w1, none) => execT P f (.run o) w1
+    | (w1, none) => execT P f (.run o) w1 hd
     | (w1, some _) =>
-      match execT P f (.run b) w1 with
-      | some (w2, .normal) => execT P f (.forLoop h b o) w2
-      | some (w2, .cont) => execT P f (.forLoop h b o) w2
+      match execT P f (.run b) w1 hd with
+      | some (w2, .normal) => execT P f (.forLoop h b o) w2 hd
+      | some (w2, .cont) => execT P f (.forLoop h b o) w2 hd
       | some (w2, .brk) => some (w2, .normal)
       | r => r
-  | f+1, .run s, w =>
+  | f+1, .run s, w, hd =>
     match s with
     | .skip => some (w, .normal)
     | .pass _ => some (w, .normal)
@@ -88,58 +111,66 @@ def execT {W} (P : Prims W) : Nat → Task → W → Option (W × Outcome)
        | (w1, .val v) => some (w1, .ret v)
        | (w1, .raise c) => some (w1, .exc c ln))
     | .raise ln c => some (w, .exc c ln)
+    | .reraise ln =>
+      -- bare `raise`: the exception being handled, with its own traceback; none: RuntimeError here
+      (match hd with
+       | some (c, l) => some (w, .exc c l)
+       | none => some (w, .exc .RuntimeError ln))
+    | .raiseX ln fm => some (w, .exc fm.cls ln)
     | .brk _ => some (w, .brk)
     | .cont _ => some (w, .cont)
     | .seq a b =>
-      (match execT P f (.run a) w with
-       | some (w1, .normal) => execT P f (.run b) w1
+      (match execT P f (.run a) w hd with
+       | some (w1, .normal) => execT P f (.run b) w1 hd
        | r => r)
     | .ifS ln i b o =>
       (match P.ev w i with
        | (w1, .raise c) => some (w1, .exc c ln)
-       | (w1, .val v) => if v ≠ 0 then execT P f (.run b) w1 else execT P f (.run o) w1)
+       | (w1, .val v) => if v ≠ 0 then execT P f (.run b) w1 hd else execT P f (.run o) w1 hd)
     | .whileS ln i b o =>
       (match P.ev w i with
        | (w1, .raise c) => some (w1, .exc c ln)
        | (w1, .val v) =>
          if v ≠ 0 then
-           match execT P f (.run b) w1 with
-           | some (w2, .normal) => execT P f (.run (.whileS ln i b o)) w2
-           | some (w2, .cont) => execT P f (.run (.whileS ln i b o)) w2
+           match execT P f (.run b) w1 hd with
+           | some (w2, .normal) => execT P f (.run (.whileS ln i b o)) w2 hd
+           | some (w2, .cont) => execT P f (.run (.whileS ln i b o)) w2 hd
            | some (w2, .brk) => some (w2, .normal)
            | r => r
-         else execT P f (.run o) w1)
+         else execT P f (.run o) w1 hd)
     | .forS _ i b o =>
       let r := P.itNew w i
-      execT P f (.forLoop r.2 b o) r.1
+      execT P f (.forLoop r.2 b o) r.1 hd
     | .tryF _ b fin =>
-      (match execT P f (.run b) w with
+      (match execT P f (.run b) w hd with
        | none => none
        | some (w1, o1) =>
-         match execT P f (.run fin) w1 with
+         -- on the exception path the finally body runs with that exception as the handled one
+         match execT P f (.run fin) w1 (finHd hd o1) with
          | none => none
          | some (w2, .normal) => some (w2, o1)     -- the pending outcome is resumed
          | some (w2, o2) => some (w2, o2))         -- the finally body's own outcome replaces it
     | .tryE _ b m1 h1 m2 h2 o =>
-      (match execT P f (.run b) w with
-       | some (w1, .normal) => execT P f (.run o) w1
+      (match execT P f (.run b) w hd with
+       | some (w1, .normal) => execT P f (.run o) w1 hd
        | some (w1, .exc c ln) =>
-         if catches m1.classes c then execT P f (.run h1) w1
+         -- the clause body runs with the caught exception as the handled one
+         if catches m1.classes c then execT P f (.run h1) w1 (some (c, ln))
          else match m2 with
-           | some m => if catches m.classes c then execT P f (.run h2) w1 else some (w1, .exc c ln)
+           | some m => if catches m.classes c then execT P f (.run h2) w1 (some (c, ln)) else some (w1, .exc c ln)
            | none => some (w1, .exc c ln)
        | r => r)
     | .withS _ i b =>
       let w1 := P.cmEnter w i
-      (match execT P f (.run b) w1 with
+      (match execT P f (.run b) w1 hd with
        | none => none
        | some (w2, .exc c ln) =>
          let r := P.cmExit w2 i (some c)
          if pyTruth r.2 then some (r.1, .normal) else some (r.1, .exc c ln)
        | some (w2, o) => some ((P.cmExit w2 i none).1, o))
 
-def execS {W} (P : Prims W) (fuel : Nat) (s : Stmt) (w : W) : Option (W × Outcome) :=
-  execT P fuel (.run s) w
+def execS {W} (P : Prims W) (fuel : Nat) (s : Stmt) (w : W) (hd : Handled := none) : Option (W × Outcome) :=
+  execT P fuel (.run s) w hd
 
 /-- how a call of the function ends -/
 inductive Final
@@ -156,7 +187,7 @@ def Final.ofOutcome : Outcome → Final
   | .cont => .stray
 
 def execFn {W} (P : Prims W) (fuel : Nat) (body : Stmt) (w : W) : Option (W × Final) :=
-  match execS P fuel body w with
+  match execS P fuel body w none with   -- a call starts with no exception being handled in the fragment
   | some (w1, o) => some (w1, Final.ofOutcome o)
   | none => none
 
@@ -164,6 +195,7 @@ def execFn {W} (P : Prims W) (fuel : Nat) (body : Stmt) (w : W) : Option (W × F
 statement; `inFin` = a `finally` body lies between the statement and that loop. -/
 def wf : Bool → Bool → Stmt → Bool
   | _, _, .skip | _, _, .pass _ | _, _, .ev _ _ | _, _, .ret _ _ | _, _, .raise _ _ => true
+  | _, _, .reraise _ | _, _, .raiseX _ _ => true
   | inLoop, _, .brk _ => inLoop
   | inLoop, inFin, .cont _ => inLoop && !inFin
   | l, fi, .seq a b => wf l fi a && wf l fi b
@@ -213,6 +245,42 @@ def resumeState {W} (vm : VM W) (b : Block) (rest : List Block) (S : List Val) (
   | _, _ =>
     { vm with why := .not, pc := b.handler.toNat, blocks := rest, exc := e,
               stack := .int vm.why.code :: (if vm.why = .ret ∨ vm.why = .cont then vm.retval :: base else base) }
+
+/-! ## the handled exception as the machine keeps it -/
+
+/-- the VM's record (`vm.exc`) of the handled exception `hd` -/
+def hdInfo : Handled → ExcInfo
+  | none => {}
+  | some (c, l) => ⟨some c, .excv c, some [l]⟩
+
+/-- the handled exception read back from the three values saved on the value stack when a handler
+was entered (what POP_EXCEPT and the unwinding of an EXCEPT_HANDLER block restore) -/
+def savedOf (a b c : Val) : ExcInfo := { type := a.asType, value := b, tb := c.asTb }
+
+/-- the three values saved under an EXCEPT_HANDLER block of level `lvl` -/
+def savedAt (lvl : Nat) (st : List Val) : ExcInfo :=
+  match cutTo (lvl + 3) st with
+  | a :: b :: c :: _ => savedOf a b c
+  | _ => {}
+
+/-- the handled exception after the blocks `pre` have been popped by the unwinding loop: every
+EXCEPT_HANDLER block among them restores the one saved under it (stack discipline) -/
+def excAfter : List Block → List Val → ExcInfo → ExcInfo
+  | [], _, e => e
+  | b :: pre, st, e => excAfter pre (cutTo b.level st) (if b.kind = .handler then savedAt b.level st else e)
+
+/-! ## calls -/
+
+/-- what a call may hand back to the calling frame: a result, or an exception with a class and a traceback -/
+def CallOK : CallRes → Prop
+  | .val v => v ≠ .nil
+  | .exc e => e.isSet = true ∧ ∃ t, e.tb = some t
+
+/-- the same outcome seen through calls on the lines `lns` (outermost first): a result is passed
+up unchanged, an exception keeps its class and value and gets one traceback entry per call in front -/
+def addCalls (lns : List Nat) : CallRes → CallRes
+  | .val v => .val v
+  | .exc e => .exc { e with tb := some (lns ++ e.tb.getD []) }
 
 /-! ## line table -/
 
